@@ -36,6 +36,7 @@ type c16Case struct {
 	DelayMs int     `json:"delay_ms"`
 	Stream  int     `json:"stream_ms"` // virtual time the node's NewStream calls take
 	Resets  int     `json:"resets"`    // position "respawning": how often X resets the node's stream before the moment
+	Burst   bool    `json:"burst"`     // the node publishes a burst (and to its fanout topics) immediately before the moment
 	Pre     []c16Op `json:"pre"`
 	Post    []c16Op `json:"post"`
 }
@@ -63,7 +64,8 @@ func c16Gen(rt *rapid.T) c16Case {
 	c.Stream = rapid.SampledFrom([]int{0, 0, 20, 100, 400}).Draw(rt, "stream")
 	c.DelayMs = rapid.IntRange(0, 12*c.Lat[0]+5+c.Stream).Draw(rt, "delay")
 	c.Resets = rapid.IntRange(1, 3).Draw(rt, "resets")
-	kinds := []string{"xpub", "xpub", "ypubx", "ypubx", "ypub", "npub", "xsub", "xgraft", "wait", "wait", "xreconnect", "xopen", "xslow", "xresetin", "blapi", "bldirect"}
+	c.Burst = rapid.Bool().Draw(rt, "burst")
+	kinds := []string{"xpub", "xpub", "ypubx", "ypubx", "ypub", "npub", "xsub", "xgraft", "wait", "wait", "xreconnect", "xopen", "xslow", "xresetin", "blapi", "bldirect", "nfan", "nfan", "nburst"}
 	gen := func(label string, max int) []c16Op {
 		var out []c16Op
 		for i := 0; i < rapid.IntRange(0, max).Draw(rt, label); i++ {
@@ -174,10 +176,11 @@ func c16RunInBubble(t *testing.T, c c16Case, res *vfResult) {
 	xConnected := false
 	seq := uint64(0)
 	nResets := 0
+	tAPI, lastBurst := time.Duration(-1), time.Duration(-1)
 	tagged := map[string]string{} // data -> description, for messages that must not get through
 	control := map[string]bool{}  // data of Y's own messages sent after the moment
 	xSendSubs := func() {
-		for tp := 0; tp < 2; tp++ {
+		for tp := 0; tp < 4; tp++ { // topics 2 and 3 are not joined by the node: publishing there makes X a fanout member
 			X.send(c16N, &vfSubRPC(vfTopic(tp), true).RPC)
 		}
 	}
@@ -231,6 +234,20 @@ func c16RunInBubble(t *testing.T, c c16Case, res *vfResult) {
 			}
 		case "npub":
 			N.ps.Publish(vfTopic(op.T), []byte(fmt.Sprintf("npub-%s-%d", phase, i)))
+		case "nfan":
+			// publish to the two topics the node has not joined: fanout sets with X in them (gossipsub)
+			for tp := 2; tp < 4; tp++ {
+				N.ps.Publish(vfTopic(tp), []byte(fmt.Sprintf("nfan-%s-%d-%d", phase, i, tp)))
+			}
+		case "nburst":
+			// a backlog in X's outbound queue: eight 30 KB messages back to back (20 Mbit/s link: about 100 ms of writing)
+			for k := 0; k < 8; k++ {
+				N.ps.Publish(vfTopic(op.T), append([]byte(fmt.Sprintf("nburst-%s-%d-%d-", phase, i, k)), make([]byte, 30000)...))
+			}
+			if tAPI < 0 {
+				lastBurst = s.now()
+			}
+			res.label("burst-before-or-after")
 		case "xsub":
 			if X.hasOut(c16N) {
 				xSendSubs()
@@ -313,7 +330,6 @@ func c16RunInBubble(t *testing.T, c c16Case, res *vfResult) {
 	}
 
 	// ---- the moment (and any later blacklisting call)
-	tAPI := time.Duration(-1)
 	doBlacklist := func(route string) {
 		var qBefore *rpcQueue
 		inMesh, inTopics := false, false
@@ -371,6 +387,12 @@ func c16RunInBubble(t *testing.T, c c16Case, res *vfResult) {
 				if !closed {
 					res.violate("C16/queue-not-closed", -1, "BlacklistPeer did not close the peer's outbound queue")
 				}
+				// closed means closed: whatever is still queued must not be handed to the writer any more
+				cctx, ccancel := context.WithCancel(context.Background())
+				ccancel()
+				if rpc, err := qBefore.Pop(cctx); err == nil && rpc != nil {
+					res.violate("C16/closed-queue-still-pops", -1, "after BlacklistPeer the peer's closed outbound queue still hands out queued RPCs to its writer (%s)", c16Brief(&rpc.RPC))
+				}
 			}
 			if N.gs != nil {
 				for tp, m := range N.gs.mesh {
@@ -394,6 +416,11 @@ func c16RunInBubble(t *testing.T, c c16Case, res *vfResult) {
 		}
 	}
 	blacklistFn = doBlacklist
+	if c.Burst {
+		exec("pre", -2, c16Op{Kind: "nfan"})
+		exec("pre", -3, c16Op{Kind: "nburst"})
+		time.Sleep(time.Millisecond)
+	}
 	doBlacklist(c.Route)
 	if connectDone != nil {
 		<-connectDone
@@ -437,12 +464,23 @@ func c16RunInBubble(t *testing.T, c c16Case, res *vfResult) {
 		}
 	}
 	allowance := time.Duration(c.Lat[0]+25) * time.Millisecond
+	// a burst shortly before BlacklistPeer leaves up to 240 KB in the transport's send buffers (about 100 ms at 20 Mbit/s):
+	// everything written to the stream before the moment queues behind it
+	backlog, backlog0 := time.Duration(0), time.Duration(0)
+	if lastBurst >= 0 && t0-lastBurst < 400*time.Millisecond {
+		backlog0 = 300 * time.Millisecond // the same for streams opened just before the moment
+	}
+	if tAPI >= 0 && lastBurst >= 0 && tAPI-lastBurst < 400*time.Millisecond {
+		backlog = 300 * time.Millisecond
+	}
 	for _, r := range X.received() {
 		// streams are negotiated lazily: NewStream returns at the node before the peer has accepted the stream, so a
 		// stream accepted up to one latency after the moment may have completed before it
-		if at := X.streamAt(r.Stream); at > t0+allowance {
+		if at := X.streamAt(r.Stream); at > t0+allowance+backlog0 {
 			res.violate("C16/late-stream-not-refused", -1, "an outbound stream to the blacklisted peer that completed after the moment (accepted by the peer %v after it) was used: %s", at-t0, c16Brief(r.RPC))
-		} else if tAPI >= 0 && r.At > tAPI+allowance {
+		} else if tAPI >= 0 && r.At > tAPI+allowance+backlog && !c16OnlyBurst(r.RPC) {
+			// (burst messages are exempt: what the writer had handed to the transport before the moment takes its
+			// transmission time to arrive; that the closed queue hands out nothing more is checked at the queue itself)
 			res.violate("C16/sent-after-blacklisting", -1, "the blacklisted peer received an RPC %v after BlacklistPeer took effect (one-way latency %d ms): %s", r.At-tAPI, c.Lat[0], c16Brief(r.RPC))
 		}
 	}
@@ -474,6 +512,19 @@ func c16RunInBubble(t *testing.T, c c16Case, res *vfResult) {
 	}
 }
 
+// c16OnlyBurst: the RPC carries nothing but messages of a burst.
+func c16OnlyBurst(r *pb.RPC) bool {
+	if len(r.GetPublish()) == 0 || len(r.GetSubscriptions()) > 0 || r.GetControl() != nil {
+		return false
+	}
+	for _, m := range r.GetPublish() {
+		if !strings.HasPrefix(string(m.Data), "nburst-") {
+			return false
+		}
+	}
+	return true
+}
+
 func c16Kind(data string) string {
 	data = strings.TrimPrefix(data, "slow-")
 	if i := strings.IndexByte(data, '-'); i > 0 {
@@ -488,7 +539,11 @@ func c16Brief(r *pb.RPC) string {
 		parts = append(parts, fmt.Sprintf("%d subscription options", n))
 	}
 	for _, m := range r.GetPublish() {
-		parts = append(parts, fmt.Sprintf("message %q", m.Data))
+		d := m.Data
+		if len(d) > 40 {
+			d = d[:40]
+		}
+		parts = append(parts, fmt.Sprintf("message %q (%d bytes)", d, len(m.Data)))
 	}
 	if c := r.GetControl(); c != nil {
 		parts = append(parts, fmt.Sprintf("control (ihave %d, iwant %d, graft %d, prune %d, idontwant %d)", len(c.Ihave), len(c.Iwant), len(c.Graft), len(c.Prune), len(c.Idontwant)))
